@@ -393,6 +393,20 @@ func c02Docs(shape *jShape, seed int64, r *rng, tier string) []string {
 				add(base[:s.s] + "null" + base[s.e:])
 			}
 		}
+		// every way of nearly spelling a member name (the first keys of the document): other case, a NUL or a
+		// space behind it, an escaped spelling, a prefix, a longer name
+		nk := 0
+		for _, s := range sp {
+			if !s.isKey || nk >= 2 || s.e-s.s < 3 {
+				continue
+			}
+			nk++
+			name := base[s.s+1 : s.e-1]
+			for _, alt := range []string{name + `\u0000`, name + `\u0000\u0000`, name + " ", " " + name, name[:len(name)-1], name + "x",
+				fmt.Sprintf(`\u%04x`, name[0]) + name[1:], strings.ToUpper(name), strings.ToLower(name)} {
+				add(base[:s.s] + `"` + alt + `"` + base[s.e:])
+			}
+		}
 		for m := 0; m < nm/len(bases)+2; m++ {
 			s := sp[r.intn(len(sp))]
 			var rep string
